@@ -453,7 +453,7 @@ class Relation:
     a_in_b, a_in_b_margin   symmetric
     """
 
-    __slots__ = ("surface_gap", "overlap", "margin", "b_in_a", "b_in_a_margin", "a_in_b", "a_in_b_margin", "crossing")
+    __slots__ = ("surface_gap", "overlap", "margin", "b_in_a", "b_in_a_margin", "a_in_b", "a_in_b_margin", "crossing", "b_comps_in", "a_comps_in")
 
     def as_dict(self):
         return {k: getattr(self, k) for k in self.__slots__}
@@ -462,9 +462,12 @@ class Relation:
 def relate(A: Solid, B: Solid, tol=TOL, need_containment=True) -> Relation:
     r = Relation()
     g = surface_distance(A, B)
-    pm = pierce_margin(A, B) if g <= max(tol, 0.0) * 50 else 0.0
+    # NB: crossing surfaces need not have a small vertex-triangle / edge-edge distance (a long
+    # edge through the middle of a big triangle), so piercing is always tested
+    pm = pierce_margin(A, B)
     r.surface_gap = g
     r.crossing = pm > 0
+    r.b_comps_in = r.a_comps_in = None  # per surface component: nested in the other solid?
     if g > tol and pm == 0.0:
         b_in = points_in_mesh(B.V[B.reps], A)
         a_in = points_in_mesh(A.V[A.reps], B)
@@ -476,6 +479,8 @@ def relate(A: Solid, B: Solid, tol=TOL, need_containment=True) -> Relation:
             b_in = (np.abs(wb) > 0.5).astype(np.int8)
             a_in = (np.abs(wa) > 0.5).astype(np.int8)
         nested = bool(b_in.any() or a_in.any())
+        r.b_comps_in = [bool(x) for x in b_in]
+        r.a_comps_in = [bool(x) for x in a_in]
         r.overlap = nested
         r.margin = -g if nested else g
         r.b_in_a = bool(b_in.all() and not a_in.any())
@@ -502,7 +507,7 @@ def relate(A: Solid, B: Solid, tol=TOL, need_containment=True) -> Relation:
     return r
 
 
-def advance_to_gap(A: Solid, B: Solid, start, direction, target, max_iter=60, eps=1e-9):
+def advance_to_gap(A: Solid, B: Solid, start, direction, target, max_iter=60, eps=1e-9, max_travel=1e3):
     """Conservative advancement: translate B from `start` along `direction` (unit vector, the
     motion reduces the distance at most at unit speed) until the surface distance equals
     `target`.  Returns the travelled length (>= 0) or None if B starts closer than target."""
@@ -521,7 +526,7 @@ def advance_to_gap(A: Solid, B: Solid, start, direction, target, max_iter=60, ep
             # numerical overshoot cannot happen for exact distances; be safe
             s -= step
             break
-        if s > 1e3:
+        if s > max_travel:
             return None
     return s
 
